@@ -15,6 +15,7 @@ import GrcVerif.SfntCheck
 import GrcVerif.GlyphAttr
 import GrcVerif.PassBits
 import GrcVerif.MainSM
+import GrcVerif.Version
 namespace Grc.Driver
 
 structure State where
@@ -436,6 +437,19 @@ def step (st : State) (toks : List String) : IO (State × List String) := do
     | .ok ls => return (st, ls)
     | .error e => return (st, [s!"error {e}", "done"])
   | "mainsm" :: args => return (st, cmdMainSM args)
+  | ["plainhex", tag] =>
+    -- table bytes with the compression framing undone (Silf >= 5.0, Glat >= 3.0), as hex
+    match getTable st (strTag tag) with
+    | .error e => return (st, [s!"error {e}"])
+    | .ok t =>
+      let minV := if tag == "Silf" then 0x00050000 else if tag == "Glat" then 0x00030000 else 0xFFFFFFFF
+      match unframe t minV with
+      | .ok (plain, c) => return (st, [s!"ok compressed={c} size={plain.size} hex={hexOfBytes plain}"])
+      | .error e => return (st, [s!"error {e}"])
+  | ["silfversion", req, c, k, p, sp] =>
+    match (if req == "default" then some Gen.defaultSilfVersion else req.toNat?), sp.toNat? with
+    | some r, some s' => return (st, [s!"{Ver.calcSilfVersion r (c == "1") (k == "1") (p == "1") s'}"])
+    | _, _ => return (st, ["bad-op"])
   | ["c06"] =>
     match cmdC06 st with
     | .ok ls => return (st, ls)
